@@ -256,3 +256,20 @@ Definition resolve (r : resolver) (disk : fsys) (user : name -> option N) (f : n
   | RNull => Raise DaeBrokenRef
   | RUser => of_option DaeBrokenRef (user f)
   end.
+
+(* ------------------------------------------------------------------ what a load depends on *)
+(* The rest of Collada.__init__ (XML parsing, the _load* passes, CImage.getData later on) sees
+   the selected bytes and calls getFileData; nothing else of the container reaches it.  In the
+   model: the loaded document is [loader d behaviour] for an ARBITRARY function [loader], where
+   the behaviour of the resolver is the function from auxiliary path to outcome. *)
+Definition behaviour (r : resolver) (disk : fsys) (user : name -> option N) : name -> outcome N :=
+  fun f => resolve r disk user f.
+
+Definition load_model {model : Type} (loader : N -> (name -> outcome N) -> model)
+           (k : source_kind) (c : content) (z : option name) (user : option (name -> option N))
+           (disk : fsys) : outcome model :=
+  let uf := match user with Some u => u | None => fun _ => None end in
+  match open_container k c z (match user with Some _ => true | None => false end) with
+  | Ok (d, r) => Ok (loader d (behaviour r disk uf))
+  | Raise e => Raise e
+  end.
